@@ -1,19 +1,28 @@
 """C11 — non_dominated_set / pareto_front / non_dominated_set_ranked / pareto_efficient column.
 
 L2: the real functions vs. `Model/Pareto.lean` (same observed argsort order => identical mask,
-    identical index list, identical ranked mask).
+    identical index list, identical ranked mask, identical sorted front, identical results-table column).
 L3: the implementation's own outputs go through the verified checker `checkSel`/`checkMask`
     (theorem C11_checker: checker = specification), plus the ranked count / dominance-closure oracle.
+
+The truth is always stated over the EXACT values the caller handed in (Python ints / exact rationals of the
+floats the array holds): integer arrays of every width, float16/32/64, object arrays and lists of Python ints
+beyond 2**64 are sent to Lean digit by digit, never through a float conversion of the harness.
 """
+import csv
+import glob
 import itertools
+import json
 import math
 import os
+import sys
 import tempfile
 import types
+from fractions import Fraction
 
 import numpy as np
 
-from .common import rat
+from .common import VERIF, rat
 
 
 def _dom(a, b):
@@ -35,7 +44,61 @@ class _NpSpy:
         return getattr(np, k)
 
 
+# --------------------------------------------------------------------------- inputs of every dtype / container
+
+_INT_DTYPES = ["int8", "int16", "int32", "int64", "uint8", "uint16", "uint32", "uint64"]
+_FLOAT_DTYPES = ["float16", "float32", "float64"]
+
+
+def _make_input(pts, opts):
+    """The object handed to the functions for the exact values `pts` (rows of Python ints / floats).
+    Returns None when the container cannot hold the values exactly (e.g. NumPy's own coercion of a
+    mixed int/float list to float64 is lossy): such a case has no well-defined 'given values' and is skipped."""
+    dtype = opts.get("dtype", "float64")
+    container = opts.get("container", "ndarray")
+    try:
+        if container == "list":  # list of lists of Python numbers
+            y = [list(p) for p in pts]
+            held = np.asarray(y).tolist()
+        elif container == "rows":  # list of 1-d arrays
+            y = [np.array(p, dtype=object if dtype == "object" else dtype) for p in pts]
+            held = np.asarray(y).tolist()
+        else:
+            a = np.array(pts, dtype=object if dtype == "object" else dtype)
+            lay = opts.get("layout", "C")
+            if lay == "F":
+                a = np.asfortranarray(a)
+            elif lay == "strided":
+                big = np.zeros((2 * a.shape[0], 2 * a.shape[1]), dtype=a.dtype)
+                big[::2, ::2] = a
+                a = big[::2, ::2]
+            if opts.get("form") == "1d":
+                a = a[:, 0]
+            y = a
+            held = a.tolist()
+            if opts.get("form") == "1d":
+                held = [[v] for v in held]
+    except (OverflowError, ValueError, TypeError):
+        return None
+    if len(held) != len(pts) or any(len(h) != len(p) or any(not (a == b) for a, b in zip(h, p)) for h, p in zip(held, pts)):
+        return None
+    return y
+
+
+def _lossless_float(pts):
+    """every value is exactly a float64 (then float-based outputs such as the sorted front are comparable)"""
+    try:
+        return all(float(v) == v for p in pts for v in p)
+    except OverflowError:
+        return False
+
+
+def _rows(pts):
+    return [[rat(v) for v in p] for p in pts]
+
+
 def _gen_cases(ck):
+    """yields (kind, pts, opts): pts = rows of exact Python numbers, opts = how they are handed over"""
     rng = ck.rng
     # (a) exhaustive lattice multisets in every order
     if ck.thorough:
@@ -47,7 +110,9 @@ def _gen_cases(ck):
         for k in range(1, kmax + 1):
             for pts in itertools.combinations_with_replacement(lat, k):
                 for perm in set(itertools.permutations(pts)):
-                    yield "lattice", [list(map(float, p)) for p in perm]
+                    yield "lattice", [list(map(float, p)) for p in perm], {}
+                    if m == 1:  # a single objective may be given as a vector (the np.ndim(y) == 1 branch)
+                        yield "lattice", [list(map(float, p)) for p in perm], {"form": "1d"}
     # (a') coordinates of very different magnitudes: float coordinate sums tie although one point
     #      dominates the other (the large coordinate absorbs the small one) - every permutation
     bigs, tinies = [1e9, 5e8, 2e9, 1.0], [0.0, 1e-9, 2e-9, 1e-17, 3.0]
@@ -65,7 +130,14 @@ def _gen_cases(ck):
             rng.shuffle(p) if rng.random() < 0.2 else None
             pts.append(p)
         for perm in set(itertools.permutations(map(tuple, pts))):
-            yield "absorb", [list(p) for p in perm]
+            yield "absorb", [list(p) for p in perm], {}
+    # (a'') every input class: integer arrays of every width, float16/32/64, object arrays, lists of Python
+    #       numbers.  Each objective column is a small lattice {0..3}*step shifted by a base at the edge of what
+    #       the dtype can tell apart (largest/smallest value, 2**24, 2**53, 2**63, 2**64 and beyond, subnormals),
+    #       so ties, duplicates and dominance are decided by the last unit of the GIVEN values.
+    ndt = ck.pick(900, 5000)
+    for _ in range(ndt):
+        yield _dtype_case(rng)
     # (b) generated float sets: equal sums, negatives, duplicates, permutations of one set
     nrand = ck.pick(250, 3000)
     for t in range(nrand):
@@ -89,243 +161,602 @@ def _gen_cases(ck):
         else:
             pool = [[rng.choice([0.5, 1.0, 1.5, 0.1 + 0.2]) for _ in range(m)] for _ in range(max(1, n // 3))]
             pts = [list(rng.choice(pool)) for _ in range(n)]
-        yield kind, pts
+        opts = {"form": "1d"} if m == 1 and rng.random() < 0.5 else {}
+        yield kind, pts, opts
         if t % 5 == 0 and n > 1:
             p2 = pts[:]
             rng.shuffle(p2)
-            yield kind + "-perm", p2
+            yield kind + "-perm", p2, opts
 
 
-def run(ck):
-    import deephyper.skopt.moo._pf as pf
-    from deephyper.hpo._search import Search
+def _int_bases(lo, hi):
+    """offsets at which a {0..3} lattice still fits in [lo, hi]"""
+    cand = [0, 1, lo, hi - 3, -2, -3, 2 ** 24 - 1, 2 ** 24, 2 ** 31 - 2, 2 ** 32 - 2, 2 ** 53 - 2, 2 ** 53, 2 ** 53 + 2,
+            2 ** 60, 2 ** 62 + 1, 2 ** 63 - 2, 2 ** 63, 2 ** 64 - 4, -(2 ** 53) - 1, -(2 ** 62), 1700000000000000000]
+    return [b for b in cand if lo <= b and b + 3 <= hi]
 
-    ck.rule = ("exhaustive multisets of <=k points on {0..s-1}^m lattices in every order + generated float sets "
-               "(grid/float/equal-sum/negative/duplicates, permuted variants); distinct by canonical point list; "
-               "non-trivial = at least 2 points and (a dominated point or a duplicate or an argsort tie present)")
-    ck.assumptions = [
-        "np.argsort returns a permutation of range(n) (observed and passed to the model; theorems hold for every such order)",
-        "req = min(ceil(fraction*n), n) is evaluated with the code's own float expression (DESIGN section 8)",
-        "NumPy boolean/fancy indexing glue is compared, not modelled",
-    ]
-    spy = _NpSpy()
-    real_np = pf.np
-    reqs, metas = [], []
-    fractions_ = [0.0, 0.1, 0.25, 1 / 3, 0.5, 0.6, 0.75, 0.9, 1.0, 1.5]
-    tmpdir = tempfile.mkdtemp(prefix="c11_")
-    try:
-        pf.np = spy
-        for kind, pts in _gen_cases(ck):
-            y = np.array(pts, dtype=float)
-            n, m = y.shape
-            y0 = y.copy()
-            spy.orders.clear()
+
+def _dtype_case(rng):
+    dt = rng.choice(_INT_DTYPES + _FLOAT_DTYPES + ["object", "object", "pyint", "pyint", "pymixed"])
+    m = rng.choice([1, 1, 2, 2, 2, 3])
+    n = rng.randint(2, 6)
+    cols = []
+    for _j in range(m):
+        d = [rng.randint(0, 3) for _ in range(n)]
+        if dt in _INT_DTYPES:
+            info = np.iinfo(dt)
+            b = rng.choice(_int_bases(int(info.min), int(info.max)))
+            cols.append([b + x for x in d])
+        elif dt in ("object", "pyint"):
+            b = rng.choice(_int_bases(-(2 ** 200), 2 ** 200) + [2 ** 64, 2 ** 70, -(2 ** 70), 10 ** 30, 2 ** 100])
+            cols.append([b + x for x in d])
+        elif dt == "pymixed":
+            if rng.random() < 0.5:
+                b = rng.choice([0, -2, 2 ** 24, 2 ** 53 - 4, 2 ** 60])
+                s = 1 if b < 2 ** 53 else 2 ** 10
+                cols.append([b + s * x for x in d])
+            else:
+                b = rng.choice([0.0, 0.5, -1.25, 1e9])
+                cols.append([b + 0.5 * x for x in d])
+        else:
+            ft = np.dtype(dt).type
+            top = {"float16": 11, "float32": 24, "float64": 53}[dt]
+            b = ft(rng.choice([0.0, 1.0, -1.0, 2.0 ** top, -(2.0 ** top), 2.0 ** (top - 1), 0.5, 2.0 ** (top + 3)]
+                              + ([1e300, 2.0 ** -1022] if dt == "float64" else [])))
+            step = np.spacing(abs(b)) if b != 0 else np.spacing(ft(0))  # the last unit at that magnitude (subnormal at 0)
+            with np.errstate(all="ignore"):
+                cols.append([(b + ft(x) * step).item() for x in d])
+    pts = [[cols[j][i] for j in range(m)] for i in range(n)]
+    opts = {"dtype": dt}
+    if dt in ("pyint", "pymixed"):
+        opts["container"] = "list"
+        if dt == "pymixed" and rng.random() < 0.5:  # ints and floats within one column as well
+            pts = [[(float(v) if rng.random() < 0.3 and float(v) == v else v) for v in p] for p in pts]
+    else:
+        if dt == "object" and rng.random() < 0.3:  # Python ints and floats side by side (compared exactly by Python)
+            pts = [[(float(v) if rng.random() < 0.3 and float(v) == v else v) for v in p] for p in pts]
+        r = rng.random()
+        if r < 0.1 and dt != "object":
+            opts["container"] = "rows"
+        elif r < 0.25:
+            opts["layout"] = "F"
+        elif r < 0.4:
+            opts["layout"] = "strided"
+        if m == 1 and rng.random() < 0.6 and opts.get("container", "ndarray") == "ndarray":
+            opts["form"] = "1d"
+    return "dtype", pts, opts
+
+
+# --------------------------------------------------------------------------- requested numbers of the ranked form
+
+
+def _nudge(x, k):
+    for _ in range(abs(k)):
+        x = math.nextafter(x, math.inf if k > 0 else -math.inf)
+    return x
+
+
+def _gen_fraction(rng, n):
+    """one `fraction` for a set of n points, aimed at the edges of ceil(fraction*n): products just above / just
+    below / exactly on an integer at every distance from 1 ulp to 1e-3, tiny positive fractions down to the
+    smallest subnormal, decimal literals, the ends 0 and 1, values above 1 and far above 1."""
+    r = rng.random()
+    if r < 0.2:
+        den = rng.choice([10, 100, 100, 1000])
+        return rng.randint(0, int(1.2 * den)) / den, "decimal"
+    if r < 0.4:
+        k = rng.randint(0, n + 1)
+        return max(0.0, _nudge(k / n, rng.randint(-3, 3))), "k/n±ulps"
+    if r < 0.65:
+        k = rng.randint(0, n)
+        eps = rng.choice([-1, 1]) * 10.0 ** -rng.randint(3, 17)
+        return max(0.0, (k + eps) / n), "near-integer"
+    if r < 0.8:
+        return rng.choice([10.0 ** -rng.randint(1, 323), 5e-324, sys.float_info.min, 2.0 ** -rng.randint(30, 1074)]), "tiny"
+    if r < 0.97:
+        return rng.choice([0, 0.0, 1, 1.0, 2, 1.5, math.nextafter(1.0, 0.0), math.nextafter(1.0, 2.0), 1 / 3, 2 / 3, 1 / n,
+                           np.float64(0.5), np.float64(rng.randint(0, n)) / n, float(n), 0.9, 1 - 0.9]), "special"
+    return rng.choice([1e19, 4.7e18, 1e300, 2 ** 63, 10 ** 30, 1.7e308]), "huge"
+
+
+def _req(fraction, n):
+    """min(n, ceil(fraction*n)) with `fraction*n` the Python product of the two numbers handed in (a double for a
+    float fraction) — the docstring's own definition, DESIGN section 8.  Stated here, never taken from the code."""
+    p = fraction * n
+    return n if p >= n else math.ceil(p)  # = min(n, ceil(p)); written so that an infinite product needs no ceiling
+
+
+def _req_exact(fraction, n):
+    return min(n, math.ceil(Fraction(fraction) * n))
+
+
+# --------------------------------------------------------------------------- result tables
+
+_HOSTILE = ["objective", "objective_0", "objective_1", "objective_2", "objective_0_std", "objective_1_weight", "my_objective_0",
+            "objectives", "pareto_efficient", "job_id", "job_status", " objective_0", "objective_0 ", " x ", "Objective_0",
+            "OBJECTIVE", "m:objective_0", "p:objective_1", "objective_", "F", "timestamp_submit", "timestamp_gather", "lr", "obj"]
+
+
+def _gen_table(rng):
+    """a results table as the evaluator writes it: p:<hyperparameter> columns, the objective columns, job_id,
+    job_status, m:<metadata key> columns — with hyperparameter names and metadata keys chosen by the user
+    (any string: containing 'objective', 'pareto_efficient', 'job_id', leading/trailing blanks, ...)."""
+    n = rng.randint(1, 12)
+    m = rng.choice([1, 2, 2, 2, 3, 3])
+    # objective cells: short decimals / integers (text the CSV parser reads back exactly, checked before use)
+    style = rng.choice(["grid", "grid", "int", "quarter", "wide"])
+
+    def val():
+        if style == "grid":
+            return float(rng.randint(0, 3))
+        if style == "int":
+            return rng.randint(-3, 3)
+        if style == "quarter":
+            return rng.randint(-8, 8) / 4
+        return rng.choice([rng.randint(0, 3) * 10.0 ** rng.randint(-3, 6), -float(rng.randint(0, 3)), rng.randint(0, 30) / 10])
+
+    objs = [[val() for _ in range(m)] for _ in range(n)]
+    failed = [rng.random() < 0.25 for _ in range(n)]
+    jobids = list(range(n))
+    if rng.random() < 0.7:  # rows are written in completion order, which is not job_id order with several workers
+        rng.shuffle(jobids)
+    pnames = rng.sample(_HOSTILE, rng.choice([0, 0, 1, 2]))
+    mnames = rng.sample(_HOSTILE, rng.choice([0, 1, 2, 3]))
+    onames = ["objective"] if m == 1 else [f"objective_{i}" for i in range(m)]
+    header = ["p:x"] + ["p:" + s for s in pnames] + onames + ["job_id"] + (["job_status"] if rng.random() < 0.5 else []) + ["m:" + s for s in mnames]
+
+    def extra_col():
+        k = rng.choice(["num", "num", "num", "int", "str", "gap"])
+        if k == "num":
+            return [repr(float(rng.randint(0, 4))) for _ in range(n + 8)]
+        if k == "int":
+            return [str(rng.randint(-2, 5)) for _ in range(n + 8)]
+        if k == "str":
+            return [rng.choice(["a", "F", "F_timeout", "relu", "1e3x"]) for _ in range(n + 8)]
+        return [rng.choice(["", "1.5", "0.25"]) for _ in range(n + 8)]
+
+    extra = {h: extra_col() for h in header if h.startswith(("p:", "m:")) and h != "p:x"}
+
+    def row(k, o, fl, jid):
+        out = []
+        for h in header:
+            if h == "p:x":
+                out.append(str(k))
+            elif h in onames:
+                out.append("F" if fl else repr(o[onames.index(h)]))
+            elif h == "job_id":
+                out.append(str(jid))
+            elif h == "job_status":
+                out.append("DONE")
+            else:
+                out.append(extra[h][k])
+        return out
+
+    cells = [row(k, objs[k], failed[k], jobids[k]) for k in range(n)]
+    case = {"kind": "column", "header": header, "cells": cells, "objs": objs, "failed": failed, "job_ids": jobids}
+    if not all(failed) and rng.random() < 0.5:
+        # a later search() call appends rows WITHOUT the new column (the writer keeps the columns of its first
+        # dump) and the column is computed again at its end: the second table must be exact too
+        n2 = rng.randint(1, 5)
+        objs2 = [[val() for _ in range(m)] for _ in range(n2)]
+        failed2 = [rng.random() < 0.2 for _ in range(n2)]
+        case["second"] = {"cells": [row(n + k, objs2[k], failed2[k], n + k) for k in range(n2)], "objs": objs2, "failed": failed2}
+    return case
+
+
+def _objective_names(header):
+    """the objective columns of a results table, by the evaluator's naming: `objective` (one objective) or
+    `objective_0 … objective_{k-1}`; hyperparameters are `p:<name>`, metadata `m:<key>` whatever <name>/<key> are"""
+    if "objective" in header:
+        return ["objective"]
+    out, i = [], 0
+    while f"objective_{i}" in header:
+        out.append(f"objective_{i}")
+        i += 1
+    return out
+
+
+# --------------------------------------------------------------------------- the run
+
+
+class _Run:
+    def __init__(self, ck, pf, Search, spy):
+        self.ck, self.pf, self.Search, self.spy = ck, pf, Search, spy
+        self.reqs, self.metas = [], []
+        self.tmpdir = None
+
+    # ---- non_dominated_set (mask, index), pareto_front (plain, sorted), is_pareto_efficient
+    def points(self, kind, pts, opts, ranked_fraction=None):
+        ck, pf, spy = self.ck, self.pf, self.spy
+        case = {"kind": kind, "pts": pts, **opts}
+        y = np.array(pts, dtype=float) if not opts else _make_input(pts, opts)  # (no options: rows of Python floats)
+        if y is None:
+            ck.count("skipped:container-does-not-hold-the-values-exactly")
+            return
+        n, m = len(pts), len(pts[0])
+        is_arr = isinstance(y, np.ndarray)
+        two_d = is_arr and y.ndim == 2
+        y0 = y.copy() if is_arr else [np.array(r, dtype=object).copy() for r in y]
+        spy.orders.clear()
+        try:
+            mask = pf.non_dominated_set(y)
+            order = spy.orders[-1] if spy.orders else list(range(n))
+            idx = pf.non_dominated_set(y, return_mask=False)
+            mask_l = [bool(b) for b in mask]
+            idx_l = [int(i) for i in idx]
+        except Exception as e:  # the functions are total on finite inputs
+            ck.fail("C11|raises|non_dominated_set", f"non_dominated_set raised {type(e).__name__}", case, repr(e))
+            return
+        front = sfront = sidx_l = None
+        if two_d:
             try:
-                mask = pf.non_dominated_set(y)
-                order = spy.orders[-1]
-                idx = pf.non_dominated_set(y, return_mask=False)
                 front, fidx = pf.pareto_front(y, return_idx=True)
                 sfront, sidx = pf.pareto_front(y, sort=True, return_idx=True)
-            except Exception as e:  # the functions are total on finite inputs
-                ck.fail("C11|raises|non_dominated_set", f"non_dominated_set raised {type(e).__name__}", {"pts": pts}, repr(e))
-                continue
-            ck.count("kind:" + kind)
-            ck.count(f"n={min(n, 9)}{'+' if n > 9 else ''}")
-            ck.count(f"m={m}")
-            tset = set(map(tuple, pts))
-            has_dom = any(_dom(a, b) for a in tset for b in tset)
-            sums = y.sum(axis=1)
-            nontriv = n >= 2 and (has_dom or len(tset) < n or len(set(sums.tolist())) < n)
-            case = {"kind": kind, "pts": pts}
-            ck.case(case, nontrivial=nontriv)
-            if not np.array_equal(y, y0):
-                ck.fail("C11|mutates-input|non_dominated_set", "caller's array changed", case)
-            if sorted(int(i) for i in idx) != [int(i) for i in np.nonzero(mask)[0]]:
-                ck.fail("C11|mask-vs-idx|non_dominated_set", "mask form and index form select different points", case,
-                        {"mask": mask.tolist(), "idx": idx.tolist()})
-            if [int(i) for i in fidx] != [int(i) for i in idx] or not np.array_equal(front, y[idx]):
+                fidx_l, sidx_l = [int(i) for i in fidx], [int(i) for i in sidx]
+            except Exception as e:
+                ck.fail("C11|raises|pareto_front", f"pareto_front raised {type(e).__name__}", case, repr(e))
+                return
+        dt = opts.get("dtype", "float64")
+        ck.count("kind:" + kind)
+        ck.count("input:" + dt + "/" + opts.get("container", "ndarray") + ("/" + opts["layout"] if "layout" in opts else "")
+                 + ("/1d" if opts.get("form") == "1d" else ""))
+        ck.count(f"n={min(n, 9)}{'+' if n > 9 else ''}")
+        ck.count(f"m={m}")
+        tset = set(map(tuple, pts))
+        has_dom = any(_dom(a, b) for a in tset for b in tset)
+        arr = np.asarray(y)
+        sums = (arr.sum(axis=1) if arr.ndim == 2 else arr).tolist()
+        nontriv = n >= 2 and (has_dom or len(tset) < n or len(set(sums)) < n)
+        lossless = True if not opts else _lossless_float(pts)
+        if not lossless:
+            ck.count("values-not-representable-as-float64")
+        ck.case(case, nontrivial=nontriv)
+        same = np.array_equal(y, y0) if is_arr else all(np.array_equal(np.array(a, dtype=object), b) for a, b in zip(y, y0))
+        if not same:
+            ck.fail("C11|mutates-input|non_dominated_set", "caller's array changed", case)
+        if len(mask_l) != n or sorted(idx_l) != [i for i, b in enumerate(mask_l) if b]:
+            ck.fail("C11|mask-vs-idx|non_dominated_set", "mask form and index form select different points", case,
+                    {"mask": mask_l, "idx": idx_l})
+        if two_d:
+            if fidx_l != idx_l or not np.array_equal(front, y[idx]):
                 ck.fail("C11|pareto_front|pareto_front", "pareto_front is not y[non_dominated_set idx]", case)
-            reqs.append({"op": "nds", "pts": [[rat(v) for v in p] for p in pts], "order": order,
-                         "mask": [bool(b) for b in mask], "idx": [int(i) for i in idx]})
-            metas.append(("nds", case, mask.tolist(), [int(i) for i in idx], [int(i) for i in sidx]))
-            if not np.array_equal(sfront, y[sidx]) or sorted(int(i) for i in sidx) != sorted(int(i) for i in idx):
+            # the sorted front is returned as float64 rows: its values are comparable with the given ones only
+            # when those are float64-representable; which rows it lists is judged always
+            if sorted(sidx_l) != sorted(idx_l) or (lossless and not np.array_equal(sfront, y[sidx])):
                 ck.fail("C11|pareto_front-sorted|pareto_front", "sorted front is not a reordering of the front", case)
             if any(tuple(sfront[i]) > tuple(sfront[i + 1]) for i in range(len(sfront) - 1)):
                 ck.fail("C11|pareto_front-sorted-order|pareto_front", "sorted front is not in lexicographic order", case)
-            # is_pareto_efficient: a new vector against the recorded set
-            if n <= 30 and (kind != "lattice" or ck.rng.random() < 0.1):
-                for new in (pts[ck.rng.randrange(n)], [v + ck.rng.choice([-1.0, 0.0, 0.5]) for v in pts[ck.rng.randrange(n)]]):
-                    try:
-                        got = bool(pf.is_pareto_efficient(new, y))
-                    except Exception as e:
-                        ck.fail("C11|raises|is_pareto_efficient", f"{type(e).__name__}", {"pts": pts, "new": new}, repr(e))
+        self.reqs.append({"op": "nds", "pts": _rows(pts), "order": order, "mask": mask_l, "idx": idx_l})
+        self.metas.append(("nds", case, mask_l, idx_l, sidx_l if lossless else None))
+        # is_pareto_efficient: a new vector against the recorded set
+        if two_d and n <= 30 and (kind != "lattice" or ck.rng.random() < 0.1):
+            a, b = pts[ck.rng.randrange(n)], pts[ck.rng.randrange(n)]
+            if kind != "dtype":
+                news = [a, [v + ck.rng.choice([-1.0, 0.0, 0.5]) for v in b]]
+            else:  # a vector every dtype can hold: each coordinate from one of two recorded vectors
+                news = [a, [ck.rng.choice(c) for c in zip(a, b)]]
+            for new in news:
+                nobj = new  # a list, or (input classes) an array of the same dtype as the recorded set
+                if kind == "dtype":
+                    nobj = _make_input([new], {"dtype": dt})
+                    if nobj is None:
                         continue
-                    ic = {"kind": "ipe", "pts": pts, "new": new}
-                    ck.case(ic, nontrivial=True)
-                    ck.count("is_pareto_efficient:" + str(got))
-                    want = not any(all(a <= b for a, b in zip(r, new)) for r in pts)
-                    if got != want:
-                        ck.fail("C11|is_pareto_efficient|is_pareto_efficient", "answer differs from 'no recorded vector weakly dominates the new one'", ic, {"got": got})
-                    reqs.append({"op": "ipe", "pts": [[rat(v) for v in p] for p in pts], "new": [rat(v) for v in new]})
-                    metas.append(("ipe", ic, got, None, None))
-            # ranked
-            if n >= 2 and (kind != "lattice" or ck.rng.random() < 0.15):
-                fr = ck.rng.choice(fractions_)
-                spy.orders.clear()
+                    nobj = nobj[0]
+                ic = {"kind": "ipe", "pts": pts, "new": new, **opts}
                 try:
-                    rmask = pf.non_dominated_set_ranked(y, fr)
-                    ridx = pf.non_dominated_set_ranked(y, fr, return_mask=False)
+                    got = bool(pf.is_pareto_efficient(nobj, y))
                 except Exception as e:
-                    ck.fail("C11|raises|non_dominated_set_ranked", f"ranked raised {type(e).__name__}", {"pts": pts, "fraction": fr}, repr(e))
+                    ck.fail("C11|raises|is_pareto_efficient", f"{type(e).__name__}", ic, repr(e))
                     continue
-                req_n = int(min(np.ceil(fr * n).astype(int), n))
-                rounds = spy.orders[: len(spy.orders) // 2] if spy.orders else []
-                rc = {"kind": kind, "pts": pts, "fraction": fr, "req": req_n}
-                ck.case(rc, nontrivial=0 < req_n < n)
-                ck.count("ranked:" + ("none" if req_n <= 0 else "all" if req_n >= n else f"rounds={len(rounds)}"))
-                sel = [int(i) for i in np.nonzero(rmask)[0]]
-                # oracle: count, dominance-closed, index form consistent
-                if len(sel) != max(0, min(n, req_n)):
-                    ck.fail("C11|ranked-count|non_dominated_set_ranked", "wrong number of points", rc, {"got": len(sel)})
-                if 0 < req_n < n and sorted(int(i) for i in ridx) != sel:
-                    ck.fail("C11|ranked-mask-vs-idx|non_dominated_set_ranked", "mask and index forms differ", rc)
-                ss = set(sel)
-                for i in sel:
-                    for j in range(n):
-                        if j not in ss and _dom(pts[j], pts[i]):
-                            ck.fail("C11|ranked-front-order|non_dominated_set_ranked",
-                                    "a point is chosen although a point dominating it is not", rc, {"chosen": i, "dominator": j})
-                reqs.append({"op": "ranked", "pts": [[rat(v) for v in p] for p in pts], "req": req_n, "orders": rounds})
-                metas.append(("ranked", rc, [bool(b) for b in rmask], [int(i) for i in ridx] if 0 < req_n < n else None, None))
-        # pareto_efficient column (maximisation: objectives are negated)
-        ncol = ck.pick(40, 300)
-        for t in range(ncol):
-            n = ck.rng.randint(1, 12)
-            m = ck.rng.randint(2, 3)
-            objs = [[float(ck.rng.randint(0, 3)) for _ in range(m)] for _ in range(n)]
-            failed = [ck.rng.random() < 0.25 for _ in range(n)]
-            path = os.path.join(tmpdir, f"r{t}.csv")
-            # rows are written in completion order, which is not job_id order with several workers
-            jobids = list(range(n))
-            if ck.rng.random() < 0.7:
-                ck.rng.shuffle(jobids)
-            with open(path, "w") as f:
-                f.write("p:x," + ",".join(f"objective_{i}" for i in range(m)) + ",job_id\n")
-                for k, (o, fl) in enumerate(zip(objs, failed)):
-                    cells = ["F"] * m if fl else [repr(v) for v in o]
-                    f.write(f"{k}," + ",".join(cells) + f",{jobids[k]}\n")
-            ns = types.SimpleNamespace(is_master=True, _path_results=path)
-            case = {"kind": "column", "objs": objs, "failed": failed, "job_ids": jobids}
-            try:
-                Search.extend_results_with_pareto_efficient_indicator(ns)
-                import pandas as pd
+                ck.case(ic, nontrivial=True)
+                ck.count("is_pareto_efficient:" + str(got))
+                want = not any(all(p <= q for p, q in zip(r, new)) for r in pts)
+                if got != want:
+                    ck.fail("C11|is_pareto_efficient|is_pareto_efficient", "answer differs from 'no recorded vector weakly dominates the new one'", ic, {"got": got})
+                self.reqs.append({"op": "ipe", "pts": _rows(pts), "new": [rat(v) for v in new]})
+                self.metas.append(("ipe", ic, got, None, None))
+        # ranked (needs an array: the peeling indexes y with a boolean mask)
+        if is_arr and ranked_fraction is not None:
+            self.ranked(kind, pts, opts, ranked_fraction[0], ranked_fraction[1], y=y)
 
-                df = pd.read_csv(path)
-                by_job = {int(j): bool(b) for j, b in zip(df["job_id"].tolist(), df["pareto_efficient"].tolist())}
-                if sorted(by_job) != list(range(n)) or len(df) != n:
-                    ck.fail("C11|rows-changed|pareto_efficient-column", "the rewrite changed the set of rows", case)
-                    continue
-                col = [by_job[jobids[k]] for k in range(n)]  # flag of the k-th written row, whatever the new row order
-                px = {int(j): int(x) for j, x in zip(df["job_id"].tolist(), df["p:x"].tolist())}
-                if any(px[jobids[k]] != k for k in range(n)):
-                    ck.fail("C11|rows-changed|pareto_efficient-column", "the rewrite detached rows from their job_id", case)
-            except Exception as e:
-                if all(failed):
-                    # all-failed tables: no numeric objective at all; the column is not defined by the property
-                    ck.count("column:all-failed-raises")
-                    continue
-                ck.fail("C11|raises|pareto_efficient-column", f"{type(e).__name__}", case, repr(e))
-                continue
-            ck.case(case, nontrivial=n >= 2)
-            ck.count("column")
-            # a later search() call appends rows WITHOUT the new column (the writer keeps the columns of
-            # its first dump) and the column is computed again at its end: the second table must be exact too
-            if not all(failed) and ck.rng.random() < 0.5:
-                n2 = ck.rng.randint(1, 5)
-                objs2 = [[float(ck.rng.randint(0, 4)) for _ in range(m)] for _ in range(n2)]
-                failed2 = [ck.rng.random() < 0.2 for _ in range(n2)]
-                with open(path, "a") as f:
-                    for k, (o, fl) in enumerate(zip(objs2, failed2)):
-                        cells = ["F"] * m if fl else [repr(v) for v in o]
-                        f.write(f"{n + k}," + ",".join(cells) + f",{n + k}\n")
-                case2 = {"kind": "column-second-call", "objs": objs + objs2, "failed": failed + failed2, "job_ids": jobids + list(range(n, n + n2))}
-                try:
-                    Search.extend_results_with_pareto_efficient_indicator(ns)
-                    df2 = pd.read_csv(path)
-                    flags = df2["pareto_efficient"].tolist()
-                    by_job2 = {int(j): b for j, b in zip(df2["job_id"].tolist(), flags)}
-                except Exception as e:
-                    ck.fail("C11|raises|pareto_efficient-column", f"{type(e).__name__} on the second call", case2, repr(e))
-                    continue
-                ck.case(case2, nontrivial=True)
-                ck.count("column-second-call")
-                allobjs, allfailed, alljobs = case2["objs"], case2["failed"], case2["job_ids"]
-                if sorted(by_job2) != sorted(alljobs) or any(not isinstance(b, (bool, np.bool_)) for b in by_job2.values()):
-                    ck.fail("C11|column-undefined|pareto_efficient-column", "pareto_efficient is missing/undefined for some rows after a second call", case2,
-                            {"flags": [repr(b) for b in flags]})
-                    continue
-                col2 = [bool(by_job2[j]) for j in alljobs]
-                if any(col2[k] for k in range(len(alljobs)) if allfailed[k]):
-                    ck.fail("C11|failed-row-flagged|pareto_efficient-column", "a failed row is flagged pareto_efficient", case2)
-                ok2 = [k for k in range(len(alljobs)) if not allfailed[k]]
-                sub2 = [[-v for v in allobjs[k]] for k in ok2]
-                if sub2:
-                    reqs.append({"op": "nds", "pts": [[rat(v) for v in p] for p in sub2], "order": list(range(len(sub2))),
-                                 "mask": [col2[k] for k in ok2], "idx": [i for i, k in enumerate(ok2) if col2[k]]})
-                    metas.append(("column", case2, None, None, None))
-            ok_rows = [k for k in range(n) if not failed[k]]
-            sub = [[-v for v in objs[k]] for k in ok_rows]
-            if any(col[k] for k in range(n) if failed[k]):
-                ck.fail("C11|failed-row-flagged|pareto_efficient-column", "a failed row is flagged pareto_efficient", case)
-            if sub:
-                reqs.append({"op": "nds", "pts": [[rat(v) for v in p] for p in sub], "order": list(range(len(sub))),
-                             "mask": [col[k] for k in ok_rows], "idx": [i for i, k in enumerate(ok_rows) if col[k]]})
-                metas.append(("column", case, None, None, None))
+    # ---- non_dominated_set_ranked
+    def ranked(self, kind, pts, opts, fr, frkind, y=None):
+        ck, pf, spy = self.ck, self.pf, self.spy
+        if y is None:
+            y = _make_input(pts, opts)
+            if y is None:
+                ck.count("skipped:container-does-not-hold-the-values-exactly")
+                return
+        n = len(pts)
+        frj = fr if isinstance(fr, int) else float(fr)
+        rc = {"kind": kind, "pts": pts, "fraction": frj, "fraction_type": type(fr).__name__, **opts}
+        req_n = _req(frj, n)
+        rc["req"] = req_n
+        beyond = frj * n >= 2 ** 63  # the product does not fit a 64-bit integer
+        sfx = "|fraction*n>=2^63" if beyond else ""
+        y0 = y.copy()
+        spy.orders.clear()
+        try:
+            rmask = pf.non_dominated_set_ranked(y, fr)
+            ridx = pf.non_dominated_set_ranked(y, fr, return_mask=False)
+            rmask_l = [bool(b) for b in rmask]
+            ridx_l = [int(i) for i in ridx] if 0 < req_n < n else None
+        except Exception as e:
+            ck.fail("C11|raises|non_dominated_set_ranked" + sfx, f"ranked raised {type(e).__name__}", rc, repr(e))
+            return
+        rounds = spy.orders[: len(spy.orders) // 2] if spy.orders else []
+        ck.case(rc, nontrivial=0 < req_n < n)
+        ck.count("ranked:" + ("none" if req_n <= 0 else "all" if req_n >= n else f"rounds={len(rounds)}"))
+        ck.count("ranked-fraction:" + frkind)
+        p = frj * n
+        if isinstance(p, float) and p < 2 ** 53:
+            near = round(p)
+            ck.count("ranked-product:" + ("integer" if p == near else "tiny" if 0 < p < 1e-6 else
+                                         "just-above-integer" if 0 < p - near < 1e-6 else
+                                         "just-below-integer" if 0 < near - p < 1e-6 else "between"))
+        if req_n != _req_exact(frj, n):
+            ck.count("ranked-req:float-product-and-exact-product-differ")
+        if not np.array_equal(y, y0):
+            ck.fail("C11|mutates-input|non_dominated_set_ranked", "caller's array changed", rc)
+        sel = [i for i, b in enumerate(rmask_l) if b]
+        # oracle: count, dominance-closed, index form consistent
+        count_wrong = len(rmask_l) != n or len(sel) != max(0, req_n)
+        if count_wrong:
+            ck.fail("C11|ranked-count|non_dominated_set_ranked" + sfx, "wrong number of points", rc, {"got": len(sel), "want": max(0, req_n)})
+        if ridx_l is not None and sorted(ridx_l) != sel:
+            ck.fail("C11|ranked-mask-vs-idx|non_dominated_set_ranked", "mask and index forms differ", rc)
+        ss = set(sel)
+        for i in sel:
+            for j in range(n):
+                if j not in ss and _dom(pts[j], pts[i]):
+                    ck.fail("C11|ranked-front-order|non_dominated_set_ranked",
+                            "a point is chosen although a point dominating it is not", rc, {"chosen": i, "dominator": j})
+        if beyond and count_wrong:
+            return  # reported above with its own fingerprint; nothing to compare with the model on such a case
+        self.reqs.append({"op": "ranked", "pts": _rows(pts), "req": req_n, "orders": rounds})
+        self.metas.append(("ranked", rc, rmask_l, ridx_l, sfx))
+
+    # ---- pareto_efficient column of a results table
+    def _write(self, path, header, cells, mode="w"):
+        with open(path, mode, newline="") as f:
+            w = csv.writer(f)
+            if mode == "w":
+                w.writerow(header)
+            w.writerows(cells)
+
+    def _parsed_ok(self, path, header, cells, objs, failed):
+        """the CSV parser reads the objective cells back as exactly the numbers written (else the case is not used)"""
+        import pandas as pd
+
+        df = pd.read_csv(path)
+        if list(df.columns) != header or len(df) != len(cells):
+            return False
+        for name in _objective_names(header):
+            col = df[name].tolist()
+            j = _objective_names(header).index(name)
+            for k, v in enumerate(col):
+                if failed[k]:
+                    if v != "F":
+                        return False
+                elif not (float(v) == objs[k][j]):
+                    return False
+        return True
+
+    def column(self, case):
+        import pandas as pd
+
+        ck = self.ck
+        header, cells, objs, failed, jobids = case["header"], case["cells"], case["objs"], case["failed"], case["job_ids"]
+        n = len(cells)
+        path = os.path.join(self.tmpdir, f"r{len(self.metas)}_{ck.evaluations}.csv")
+        self._write(path, header, cells)
+        if not self._parsed_ok(path, header, cells, objs, failed):
+            ck.count("skipped:csv-parser-does-not-read-back-the-objectives")
+            return
+        ns = types.SimpleNamespace(is_master=True, _path_results=path)
+        first = {k: v for k, v in case.items() if k != "second"}
+        flags = self._column_call(ns, path, first, header, objs, failed, jobids, "", cells)
+        if flags is None:
+            return
+        sec = case.get("second")
+        if sec:
+            self._write(path, header, sec["cells"], mode="a")
+            n2 = len(sec["cells"])
+            case2 = dict(case, kind="column-second-call")
+            self._column_call(ns, path, case2, header, objs + sec["objs"], failed + sec["failed"], jobids + list(range(n, n + n2)),
+                              " on the second call", cells + sec["cells"])
+
+    def _column_call(self, ns, path, case, header, objs, failed, jobids, when, cells):
+        import pandas as pd
+
+        ck, spy = self.ck, self.spy
+        n = len(objs)
+        onames = _objective_names(header)
+        m = len(onames)
+        spy.orders.clear()
+        try:
+            self.Search.extend_results_with_pareto_efficient_indicator(ns)
+            df = pd.read_csv(path)
+        except Exception as e:
+            if all(failed):
+                # all-failed tables: no numeric objective at all; the column is not defined by the property
+                ck.count("column:all-failed-raises")
+                return None
+            ck.fail("C11|raises|pareto_efficient-column", f"{type(e).__name__}{when}", case, repr(e))
+            return None
+        cols = list(df.columns)
+        if "job_id" not in cols or "p:x" not in cols or sorted(int(j) for j in df["job_id"].tolist()) != sorted(jobids) or len(df) != n:
+            ck.fail("C11|rows-changed|pareto_efficient-column", "the rewrite changed the set of rows", case)
+            return None
+        px = {int(j): int(x) for j, x in zip(df["job_id"].tolist(), df["p:x"].tolist())}
+        if any(px[jobids[k]] != k for k in range(n)):
+            ck.fail("C11|rows-changed|pareto_efficient-column", "the rewrite detached rows from their job_id", case)
+            return None
+        if "pareto_efficient" not in cols:
+            if m >= 2:
+                ck.fail("C11|column-undefined|pareto_efficient-column", "no pareto_efficient column in a multi-objective table" + when, case)
+            else:
+                ck.count("column:single-objective-no-column")
+                ck.case(case, nontrivial=False)
+            return None
+        raw = df["pareto_efficient"].tolist()
+        by_job = dict(zip((int(j) for j in df["job_id"].tolist()), raw))
+        if any(not isinstance(b, (bool, np.bool_)) for b in raw):
+            ck.fail("C11|column-undefined|pareto_efficient-column", "pareto_efficient is missing/undefined for some rows" + when, case,
+                    {"flags": [repr(b) for b in raw]})
+            return None
+        col = [bool(by_job[jobids[k]]) for k in range(n)]  # flag of the k-th written row, whatever the new row order
+        ck.case(case, nontrivial=n >= 2)
+        ck.count(case["kind"])
+        ck.count(f"column:objectives={m}")
+        hostile = [h for h in header if h[:2] in ("p:", "m:") and "objective" in h.lower()]
+        if hostile:
+            ck.count("column:other-columns-mentioning-objective")
+        if any(col[k] for k in range(n) if failed[k]):
+            ck.fail("C11|failed-row-flagged|pareto_efficient-column", "a failed row is flagged pareto_efficient", case)
+        ok_rows = [k for k in range(n) if not failed[k]]
+        sub = [[-v for v in objs[k]] for k in ok_rows]  # maximisation: objectives are negated
+        if sub:
+            self.reqs.append({"op": "nds", "pts": _rows(sub), "order": list(range(len(sub))),
+                              "mask": [col[k] for k in ok_rows], "idx": [i for i, k in enumerate(ok_rows) if col[k]]})
+            self.metas.append(("column", case, None, None, None))
+            # the whole step inside the model: header -> objective columns -> failed rows -> sweep -> scatter
+            order = spy.orders[-1] if spy.orders else list(range(len(sub)))
+            table = []
+            for k in range(n):
+                r = []
+                for h in header:
+                    if h in onames:
+                        r.append(["f"] if failed[k] else ["n", rat(objs[k][onames.index(h)])])
+                    else:  # another column: what its cell holds (the model must not look at it)
+                        txt = cells[k][header.index(h)]
+                        try:
+                            r.append(["n", rat(float(txt))] if math.isfinite(float(txt)) else ["t"])
+                        except ValueError:
+                            r.append(["f"] if txt.startswith("F") else ["t"])
+                table.append(r)
+            self.reqs.append({"op": "column", "pts": [], "header": header, "rows": table, "order": order})
+            self.metas.append(("column-model", case, col, None, None))
+        return col
+
+    # ---- Lean: model outputs (L2) and the verified checker on the implementation's outputs (L3)
+    def lean(self):
+        ck = self.ck
+        with ck.driver() as d:
+            reps = d.ask_all(self.reqs)
+        for (kind, case, mask, idx, extra), rep in zip(self.metas, reps):
+            if kind == "ipe":
+                if rep["model"] != mask:
+                    ck.mismatch(case, {"impl": mask, "model": rep["model"]})
+            elif kind == "nds":
+                sidx = extra
+                if sidx is not None and rep["sorted_idx"] != sidx:
+                    ck.mismatch(case, {"impl_sorted_idx": sidx, "model_sorted_idx": rep["sorted_idx"]})
+                if not rep["spec_model"]:
+                    ck.mismatch(case, "model output fails its own verified checker (model/proof out of sync)")
+                if rep["model_mask"] != mask or rep["model_idx"] != idx or rep["literal_idx"] != idx:
+                    ck.mismatch(case, {"impl_mask": mask, "model_mask": rep["model_mask"], "impl_idx": idx, "model_idx": rep["model_idx"]})
+                if not rep["spec_mask"] or not rep["spec_idx"]:
+                    ck.fail("C11|not-pareto-exact|non_dominated_set", "selected set is not exactly the Pareto-optimal set (checkSel = false)",
+                            case, {"mask": mask, "idx": idx})
+            elif kind == "column":
+                if not rep["spec_mask"]:
+                    ck.fail("C11|not-pareto-exact|pareto_efficient-column", "pareto_efficient is not exactly the non-dominated successful rows", case)
+            elif kind == "column-model":
+                if rep.get("column") != mask:
+                    ck.mismatch(case, {"impl_column": mask, "model_column": rep.get("column"), "model_objective_columns": rep.get("objective_columns")})
+            else:
+                if rep["model_mask"] != mask or (idx is not None and rep["model_idx"] != idx):
+                    ck.mismatch(case, {"impl_mask": mask, "model_mask": rep["model_mask"], "impl_idx": idx, "model_idx": rep["model_idx"]})
+                if idx is not None and rep["spec_idx"] != idx:
+                    ck.fail("C11|ranked-not-front-by-front|non_dominated_set_ranked",
+                            "result is not the first req indices of the successive Pareto fronts", case,
+                            {"impl_idx": idx, "fronts_prefix": rep["spec_idx"]})
+
+
+def _dispatch(r, case):
+    """run one stored case (corpus / replay file) through the same oracle as the generated ones"""
+    kind = case.get("kind", "replay")
+    opts = {k: case[k] for k in ("dtype", "container", "layout", "form") if k in case}
+    if kind.startswith("column"):
+        r.column(case)
+    elif "fraction" in case:
+        fr = case["fraction"]
+        if case.get("fraction_type") == "float64":
+            fr = np.float64(fr)
+        r.ranked(kind, case["pts"], opts, fr, "stored")
+    elif kind == "ipe":
+        r.points("replay", case["pts"], opts)
+    else:
+        r.points(kind, case["pts"], opts)
+
+
+def _session(ck, body):
+    import deephyper.skopt.moo._pf as pf
+    from deephyper.hpo._search import Search
+
+    spy = _NpSpy()
+    real_np = pf.np
+    r = _Run(ck, pf, Search, spy)
+    r.tmpdir = tempfile.mkdtemp(prefix="c11_")
+    try:
+        pf.np = spy
+        body(r)
     finally:
         pf.np = real_np
         import shutil
 
-        shutil.rmtree(tmpdir, ignore_errors=True)
+        shutil.rmtree(r.tmpdir, ignore_errors=True)
+    r.lean()
 
-    with ck.driver() as d:
-        reps = d.ask_all(reqs)
-    for (kind, case, mask, idx, sidx), rep in zip(metas, reps):
-        if kind == "ipe":
-            if rep["model"] != mask:
-                ck.mismatch(case, {"impl": mask, "model": rep["model"]})
-        elif kind == "nds":
-            if rep["sorted_idx"] != sidx:
-                ck.mismatch(case, {"impl_sorted_idx": sidx, "model_sorted_idx": rep["sorted_idx"]})
-            if not rep["spec_model"]:
-                ck.mismatch(case, "model output fails its own verified checker (model/proof out of sync)")
-            if rep["model_mask"] != mask or rep["model_idx"] != idx or rep["literal_idx"] != idx:
-                ck.mismatch(case, {"impl_mask": mask, "model_mask": rep["model_mask"], "impl_idx": idx, "model_idx": rep["model_idx"]})
-            if not rep["spec_mask"] or not rep["spec_idx"]:
-                ck.fail("C11|not-pareto-exact|non_dominated_set", "selected set is not exactly the Pareto-optimal set (checkSel = false)",
-                        case, {"mask": mask, "idx": idx})
-        elif kind == "column":
-            if not rep["spec_mask"]:
-                ck.fail("C11|not-pareto-exact|pareto_efficient-column", "pareto_efficient is not exactly the non-dominated successful rows", case)
-        else:
-            if rep["model_mask"] != mask or (idx is not None and rep["model_idx"] != idx):
-                ck.mismatch(case, {"impl_mask": mask, "model_mask": rep["model_mask"], "impl_idx": idx, "model_idx": rep["model_idx"]})
-            if idx is not None and rep["spec_idx"] != idx:
-                ck.fail("C11|ranked-not-front-by-front|non_dominated_set_ranked",
-                        "result is not the first req indices of the successive Pareto fronts", case,
-                        {"impl_idx": idx, "fronts_prefix": rep["spec_idx"]})
+
+def run(ck):
+    ck.rule = ("exhaustive multisets of <=k points on {0..s-1}^m lattices in every order (2-d and, for one objective, 1-d inputs) "
+               "+ generated float sets (grid/float/equal-sum/negative/duplicates, permuted variants) + sets of every input class "
+               "(int8..int64, uint8..uint64, float16/32/64, object arrays, lists of Python ints/floats; C/F/strided layouts) whose "
+               "coordinates differ by the last unit of the given dtype at its extremes + (fraction, n) pairs at the edges of "
+               "ceil(fraction*n) + result tables with user-chosen hyperparameter names / metadata keys; distinct by canonical case; "
+               "non-trivial = at least 2 points and (a dominated point or a duplicate or an argsort tie present)")
+    ck.assumptions = [
+        "np.argsort returns a permutation of range(n) (observed and passed to the model; theorems hold for every such order)",
+        "the requested number of the ranked form is min(n, ceil(fraction*n)) with fraction*n the Python (double) product — the docstring's "
+        "own definition, DESIGN section 8 — computed by the harness itself, never taken from the implementation",
+        "the given values of a list input are those NumPy's own coercion np.asarray(list) holds exactly; lists it cannot hold exactly are not judged",
+        "objective cells of a results table are the doubles the CSV parser reads (tables whose cells do not read back exactly are not used)",
+        "NumPy boolean/fancy indexing glue is compared, not modelled",
+    ]
+
+    def body(r):
+        rng = ck.rng
+        # corpus first
+        for path in sorted(glob.glob(str(VERIF / "corpus" / "C11" / "*.json"))):
+            with open(path) as fh:
+                data = json.load(fh)
+            _dispatch(r, data.get("case", data))
+            ck.count("corpus")
+        fractions_ = [0.0, 0.1, 0.25, 1 / 3, 0.5, 0.6, 0.75, 0.9, 1.0, 1.5]
+        for kind, pts, opts in _gen_cases(ck):
+            n = len(pts)
+            rf = None
+            if n >= 2 and (kind != "lattice" or rng.random() < 0.15):
+                rf = (rng.choice(fractions_), "plain") if rng.random() < 0.6 else _gen_fraction(rng, n)
+            r.points(kind, pts, opts, rf)
+        # the requested number of the ranked form at the edges of ceil(fraction*n); small sets first
+        nfr = ck.pick(700, 4000)
+        sizes = sorted(rng.choice([1, 1, 2, 3, 4, 5, 7, 10, 12, 20, 25, 30, 50, 60] + ([100, 200] if rng.random() < 0.15 else []))
+                       for _ in range(nfr))
+        for n in sizes:
+            m = rng.choice([1, 2, 2, 3])
+            pts = [[float(rng.randint(0, 5)) for _ in range(m)] for _ in range(n)]
+            fr, frkind = _gen_fraction(rng, n)
+            r.ranked("ranked-count", pts, {"form": "1d"} if m == 1 and rng.random() < 0.3 else {}, fr, frkind)
+        # pareto_efficient column
+        for _ in range(ck.pick(150, 800)):
+            r.column(_gen_table(rng))
+
+    _session(ck, body)
 
 
 def replay(ck, case):
-    import deephyper.skopt.moo._pf as pf
-
-    y = np.array(case["pts"], dtype=float)
-    mask = pf.non_dominated_set(y)
-    idx = pf.non_dominated_set(y, return_mask=False)
-    order = [int(i) for i in np.argsort(y.sum(axis=1))]
-    with ck.driver() as d:
-        rep = d.ask({"op": "nds", "pts": [[rat(v) for v in p] for p in case["pts"]], "order": order,
-                     "mask": [bool(b) for b in mask], "idx": [int(i) for i in idx]})
-    ck.case(case)
-    print("replay:", {"mask": mask.tolist(), "idx": idx.tolist(), "lean": rep})
-    if not rep["spec_mask"] or not rep["spec_idx"]:
-        ck.fail("C11|not-pareto-exact|non_dominated_set", "selected set is not exactly the Pareto-optimal set", case)
+    _session(ck, lambda r: _dispatch(r, case))
+    print("replay:", {"case": case, "failures": [f["fingerprint"] for f in ck.failures], "mismatches": len(ck.mismatches)})
